@@ -120,25 +120,33 @@ fn pack_str(p: &IndexPack) -> String {
 fn direct_case(line: &str) -> String {
     let c = parse(line);
     let mut out = Vec::new();
-    for mode in 0u8..3 {
+    // blocks 0..2: IndexCollector::new(mode) + extend(file.packs); block 3: the index prune builds
+    for mode in 0u8..4 {
+        let build = |m: u8| if m < 3 { IndexHandle::from_files(m, &c.files) } else { IndexHandle::from_files_prune(&c.files) };
         let r = catch_unwind(AssertUnwindSafe(|| {
-            let ix = IndexHandle::from_files(mode, &c.files);
+            let ix = build(mode);
             let mut s = format!("M {} {}", ix.total_size(true), ix.total_size(false));
             for (is_tree, id) in &c.queries {
                 s += &format!(" {} {}", u8::from(ix.has(*is_tree, *id)), ans(&ix.get_id(*is_tree, *id)));
             }
-            // the same questions through GlobalIndex must give the same answers
-            let packs: Vec<String>;
+            // the same questions through GlobalIndex and its typed wrappers must give the same answers
             {
-                let g = IndexHandle::from_files(mode, &c.files).into_global();
+                let g = build(mode).into_global();
                 for (is_tree, id) in &c.queries {
                     assert_eq!(g.has(*is_tree, *id), ix.has(*is_tree, *id), "GlobalIndex::has differs");
                     assert_eq!(g.get_id(*is_tree, *id).is_some(), ix.get_id(*is_tree, *id).is_some(), "GlobalIndex::get_id differs");
+                    if *is_tree {
+                        assert_eq!(g.has_tree(*id), g.has(true, *id), "has_tree differs");
+                        assert_eq!(g.get_tree(*id), g.get_id(true, *id), "get_tree differs");
+                    } else {
+                        assert_eq!(g.has_data(*id), g.has(false, *id), "has_data differs");
+                        assert_eq!(g.get_data(*id), g.get_id(false, *id), "get_data differs");
+                    }
                 }
                 assert_eq!(g.total_size(true), ix.total_size(true));
                 assert_eq!(g.total_size(false), ix.total_size(false));
             }
-            packs = ix.into_packs().iter().map(pack_str).collect();
+            let packs: Vec<String> = ix.into_packs().iter().map(pack_str).collect();
             s += " I";
             for p in packs {
                 s += " ";
@@ -155,6 +163,8 @@ fn main() {
     let mode = std::env::args().nth(2).unwrap_or_else(|| "direct".into());
     if mode == "e2e" {
         for_each_case(e2e::e2e_case);
+    } else if mode == "prune" {
+        for_each_case(e2e::prune_case);
     } else {
         for_each_case(direct_case);
     }
@@ -162,47 +172,128 @@ fn main() {
 
 mod e2e {
     use super::*;
-    use rustic_core::{ConfigOptions, Credentials, KeyOptions, Repository, RepositoryBackends, RepositoryOptions};
-    use rustic_core::repofile::MasterKey;
+    use bytes::Bytes;
+    use rustic_core::{BytesList, ConfigOptions, ErrorKind, FileType, ReadBackend, RusticError, RusticResult, WriteBackend};
     use rustic_testing::backend::in_memory_backend::InMemoryBackend;
     use std::sync::Arc;
+    use verif_harness::e2e::{FaultPlan, OpKind, RecBackend, init_repo, mem, open_repo, repo_opts};
 
+    /// The in-memory store, except that partial reads of pack files fail cleanly (the crafted index
+    /// files name packs that do not exist; InMemoryBackend would panic on them).
+    #[derive(Debug)]
+    struct NoPacks(Arc<InMemoryBackend>);
+    impl ReadBackend for NoPacks {
+        fn location(&self) -> String {
+            self.0.location()
+        }
+        fn list_with_size(&self, tpe: FileType) -> RusticResult<Vec<(Id, u32)>> {
+            self.0.list_with_size(tpe)
+        }
+        fn read_full(&self, tpe: FileType, id: &Id) -> RusticResult<Bytes> {
+            self.0.read_full(tpe, id)
+        }
+        fn read_partial(&self, tpe: FileType, id: &Id, cacheable: bool, offset: u32, length: u32) -> RusticResult<Bytes> {
+            if tpe == FileType::Pack {
+                return Err(RusticError::new(ErrorKind::Backend, "no such pack"));
+            }
+            self.0.read_partial(tpe, id, cacheable, offset, length)
+        }
+        fn warmup_path(&self, tpe: FileType, id: &Id) -> String {
+            self.0.warmup_path(tpe, id)
+        }
+        fn needs_warm_up(&self) -> bool {
+            self.0.needs_warm_up()
+        }
+        fn warm_up(&self, tpe: FileType, id: &Id) -> RusticResult<()> {
+            self.0.warm_up(tpe, id)
+        }
+    }
+    impl WriteBackend for NoPacks {
+        fn create(&self) -> RusticResult<()> {
+            self.0.create()
+        }
+        fn write_bytes(&self, tpe: FileType, id: &Id, cacheable: bool, content: BytesList) -> RusticResult<()> {
+            self.0.write_bytes(tpe, id, cacheable, content)
+        }
+        fn remove(&self, tpe: FileType, id: &Id, cacheable: bool) -> RusticResult<()> {
+            self.0.remove(tpe, id, cacheable)
+        }
+    }
+
+    /// Per query `h g r`: r = the partial read `blob_from_backend` issued (`c:pack:off:len`),
+    /// `-` when it issued none (then the error must be "not found in index"), `?...` otherwise.
     pub fn e2e_case(line: &str) -> String {
         let c = parse(line);
-        let be = Arc::new(InMemoryBackend::new());
-        let bes = RepositoryBackends::new(be, None);
-        let opts = RepositoryOptions::default();
-        let key = MasterKey::new();
-        let cred = Credentials::Masterkey(key);
-        let repo = Repository::new(&opts, &bes)
-            .unwrap()
-            .init(&cred, &KeyOptions::default(), &ConfigOptions::default())
-            .unwrap();
+        let rec = RecBackend::new(Arc::new(NoPacks(mem())), "c17");
+        let ropts = repo_opts();
+        let (repo, key) = init_repo(rec.clone(), None, &ConfigOptions::default(), &ropts).expect("init");
         for f in &c.files {
             hook::save_index_file(&repo, f).expect("save index file");
         }
+        drop(repo);
+        rec.set_plan(FaultPlan { record_reads: true, ..Default::default() });
         let mut out = Vec::new();
-        {
-            let r = catch_unwind(AssertUnwindSafe(|| {
-                let repo = Repository::new(&opts, &bes).unwrap().open(&cred).unwrap().to_indexed().unwrap();
-                let mut s = format!("M {} {}", hook::repo_total_size(&repo, true), hook::repo_total_size(&repo, false));
-                for (is_tree, id) in &c.queries {
-                    s += &format!(" {} {}", u8::from(hook::repo_has(&repo, *is_tree, *id)), ans(&hook::repo_get_id(&repo, *is_tree, *id)));
-                }
-                s
-            }));
-            out.push(r.unwrap_or_else(|_| "M panic".to_string()));
+        macro_rules! block {
+            ($repo:expr) => {{
+                let r = catch_unwind(AssertUnwindSafe(|| {
+                    let repo = $repo;
+                    let mut s = format!("M {} {}", hook::repo_total_size(&repo, true), hook::repo_total_size(&repo, false));
+                    for (is_tree, id) in &c.queries {
+                        let h = hook::repo_has(&repo, *is_tree, *id);
+                        let g = hook::repo_get_id(&repo, *is_tree, *id);
+                        let _ = rec.take_log();
+                        let res = hook::repo_blob_from_backend(&repo, *is_tree, *id);
+                        let reads: Vec<_> = rec.take_log().into_iter().filter(|o| o.kind != OpKind::List).collect();
+                        let r = match (&res, reads.as_slice()) {
+                            (Err(e), []) if e.contains("not found in index") => "-".to_string(),
+                            (Err(_), [o]) if o.kind == OpKind::ReadPartial && o.tpe == FileType::Pack =>
+                                format!("{}:{}:{}:{}", u8::from(o.cacheable), idstr(&o.id), o.offset, o.len),
+                            _ => format!("?{}reads,{}", reads.len(), if res.is_ok() { "ok" } else { "err" }),
+                        };
+                        s += &format!(" {} {} {}", u8::from(h), ans(&g), r);
+                    }
+                    s
+                }));
+                out.push(r.unwrap_or_else(|_| "M panic".to_string()));
+            }};
         }
-        {
-            let r = catch_unwind(AssertUnwindSafe(|| {
-                let repo = Repository::new(&opts, &bes).unwrap().open(&cred).unwrap().to_indexed_ids().unwrap();
-                let mut s = format!("M {} {}", hook::repo_total_size(&repo, true), hook::repo_total_size(&repo, false));
-                for (is_tree, id) in &c.queries {
-                    s += &format!(" {} {}", u8::from(hook::repo_has(&repo, *is_tree, *id)), ans(&hook::repo_get_id(&repo, *is_tree, *id)));
-                }
-                s
-            }));
-            out.push(r.unwrap_or_else(|_| "M panic".to_string()));
+        block!(open_repo(rec.clone(), None, &key, &ropts).unwrap().to_indexed().unwrap());
+        block!(open_repo(rec.clone(), None, &key, &ropts).unwrap().to_indexed_ids().unwrap());
+        out.join(" ")
+    }
+
+    /// The index `prune` builds for itself, observed through the real `Repository::prune_plan`:
+    /// for each of the first 8 tree queries a snapshot with that root tree is stored, prune_plan is
+    /// run (it must look the tree up in its own index and read it), and the partial pack read it
+    /// issued is reported: `id=c:pack:off:len`, or `id=-` when it failed with "not found in index"
+    /// without reading.  The packs do not exist, so prune_plan always ends with an error.
+    pub fn prune_case(line: &str) -> String {
+        use rustic_core::{PruneOptions, TreeId, repofile::SnapshotFile};
+        let c = parse(line);
+        let rec = RecBackend::new(Arc::new(NoPacks(mem())), "c17p");
+        let ropts = repo_opts();
+        let (repo, _key) = init_repo(rec.clone(), None, &ConfigOptions::default(), &ropts).expect("init");
+        for f in &c.files {
+            hook::save_index_file(&repo, f).expect("save index file");
+        }
+        rec.set_plan(FaultPlan { record_reads: true, ..Default::default() });
+        let mut out = vec!["P".to_string()];
+        for (_, id) in c.queries.iter().filter(|q| q.0).take(8) {
+            let snap = SnapshotFile { tree: TreeId::from(*id), ..Default::default() };
+            repo.save_snapshots(vec![snap]).expect("save snapshot");
+            let _ = rec.take_log();
+            let res = catch_unwind(AssertUnwindSafe(|| repo.prune_plan(&PruneOptions::default()).map(|_| ()).map_err(|e| format!("{e:?}"))));
+            let reads: Vec<_> = rec.take_log().into_iter().filter(|o| o.kind == OpKind::ReadPartial).collect();
+            let r = match (&res, reads.as_slice()) {
+                (Ok(Err(e)), []) if e.contains("not found in index") => "-".to_string(),
+                (Ok(Err(_)), [o]) if o.tpe == FileType::Pack => format!("{}:{}:{}:{}", u8::from(o.cacheable), idstr(&o.id), o.offset, o.len),
+                (Err(_), _) => "panic".to_string(),
+                _ => format!("?{}reads,{}", reads.len(), if matches!(res, Ok(Ok(()))) { "ok" } else { "err" }),
+            };
+            out.push(format!("{}={}", idstr(id), r));
+            for (sid, _) in rec.list_with_size(FileType::Snapshot).expect("list") {
+                rec.remove(FileType::Snapshot, &sid, false).expect("remove snapshot");
+            }
         }
         out.join(" ")
     }
